@@ -46,8 +46,8 @@ SPLIT = True
 NQUICK = 170
 NAIMED = 108
 NSPLIT = 36
-NSPLITEX = 24
-NRTL = 30
+NSPLITEX = 20
+NRTL = 24
 
 # --------------------------------------------------------------------------------------------
 # rendering reference
